@@ -180,8 +180,21 @@ def handleHist (rest : List String) : String :=
     " ;; ".intercalate (rs.map showBRes) ++ s!" #{c.length}"
   | none => "bad-op"
 
+def parseNames (body : String) : Option (List Nat) :=
+  if body == "" then some [] else (body.splitOn ",").mapM (fun (t : String) => t.toNat?)
+
 def parseInstr (s : String) : Option OV.Scope.Instr :=
   if s == "E" then some .enter
+  else if s.startsWith "XL:" then (parseNames (s.drop 3).toString).map .exitLoop
+  else if s.startsWith "XB:" then (parseNames (s.drop 3).toString).map .exitBranch
+  else if s.startsWith "I:" then (parseNames (s.drop 2).toString).map .endIf
+  else if s.startsWith "F" then
+    match (s.drop 1).toString.splitOn ":" with
+    | [lv, st] =>
+      match (if lv == "-" then some none else lv.toNat?.map some), parseNames st with
+      | some lv, some st => some (.enterLoop lv st)
+      | _, _ => none
+    | _ => none
   else if s.startsWith "L" then (s.drop 1).toString.toNat?.map .bindLit
   else if s.startsWith "T" then (s.drop 1).toString.toNat?.map .bindTensor
   else if s.startsWith "U" then (s.drop 1).toString.toNat?.map .use
@@ -192,12 +205,23 @@ def parseInstr (s : String) : Option OV.Scope.Instr :=
 
 /-- `scope <instr>*` with instr `L<n>` (n = literal) | `T<n>` (n = tensor expr) | `U<n>` (use n) | `E` (enter block) |
 `X:<n>,<n>…` (leave block, these names are its outputs): the answers of `Converter._is_castable` at every use,
-`1`/`0` (`u`: unbound), space separated. -/
+`1`/`0` (`u`: unbound), space separated.  Round 5: `F<lv|->:<state names>` (loop header + body scope), `XL:<names>` (end
+of a loop), `XB:<names>` (end of a then/else block with these live outputs), `I:<names>` (end of the If statement);
+`scope2` answers `ok`/`refused` (the modelled error branches, or an unbound use) before the observations. -/
+def showObs (st : OV.Scope.St) : String :=
+  " ".intercalate (st.obs.map (fun o => match o with
+      | some true => "1" | some false => "0" | none => "u"))
+
 def handleScope (rest : List String) : String :=
   match rest.mapM parseInstr with
+  | some prog => showObs (OV.Scope.run prog)
+  | none => "bad-op"
+
+def handleScope2 (rest : List String) : String :=
+  match rest.mapM parseInstr with
   | some prog =>
-    " ".intercalate ((OV.Scope.run prog).obs.map (fun o => match o with
-      | some true => "1" | some false => "0" | none => "u"))
+    let st := OV.Scope.run prog
+    (if st.err || st.obs.contains none then "refused" else "ok") ++ " " ++ showObs st
   | none => "bad-op"
 
 def parseParam (s : String) : Option OV.Call.Param :=
@@ -232,6 +256,7 @@ def handle (args : List String) : String :=
   match args with
   | "sep" :: rest => handleSep rest
   | "scope" :: rest => handleScope rest
+  | "scope2" :: rest => handleScope2 rest
   | "cast" :: mode :: rest => handleCast mode rest
   | "cache" :: rest => handleCache rest
   | "hist" :: rest => handleHist rest
